@@ -343,6 +343,8 @@ func genSrcFile(t *rapid.T, name string, minAnnotated int) *SrcFile {
 		"package pb\n\n",
 		"// Code generated by protoc-gen-go. DO NOT EDIT.\n// 源文件: test.proto\n\npackage pb\n\nimport (\n\tprotoimpl \"google.golang.org/protobuf/runtime/protoimpl\"\n\t\"sync\"\n)\n\n",
 		"/* 版权 © */\npackage pb // 包 @tag valid:\"pkg\"\n\nimport \"sync\"\n\n",
+		"\ufeffpackage pb\n\n", // byte order mark (go/parser accepts it): every offset is shifted by 3 bytes
+		"//go:build !ignore\n\n// Package pb 说明。\npackage pb\n\n",
 	}).Draw(t, "header")
 	n := rapid.IntRange(1, 6).Draw(t, "nDecls")
 	sn := 0
